@@ -94,10 +94,20 @@ func build(smoke bool) (bin string, treeHash string) {
 	if _, err := os.Stat(bin); err == nil && !smoke {
 		return bin, repoHash
 	}
-	// keep the cache small: remove every other entry
+	// keep the cache small: the newest other entry survives, the rest goes
 	if ents, err := os.ReadDir(cache); err == nil {
+		var newest string
+		var newestT time.Time
 		for _, e := range ents {
-			if e.Name() != all && e.Name() != "dev" {
+			if e.Name() == all {
+				continue
+			}
+			if st, err := os.Stat(filepath.Join(cache, e.Name(), "sim.test")); err == nil && st.ModTime().After(newestT) {
+				newest, newestT = e.Name(), st.ModTime()
+			}
+		}
+		for _, e := range ents {
+			if e.Name() != all && e.Name() != newest {
 				os.RemoveAll(filepath.Join(cache, e.Name()))
 			}
 		}
@@ -570,9 +580,17 @@ func cmdCheck(args []string) {
 	// 4. violations
 	var replayPaths []string
 	os.MkdirAll(filepath.Join(verifDir, "replays"), 0o755)
+	seenClass := map[string]int{}
 	for _, v := range a.viols {
 		var rf map[string]any
 		json.Unmarshal(v, &rf)
+		if vv, _ := rf["violation"].(map[string]any); vv != nil {
+			c, _ := vv["class"].(string)
+			seenClass[c]++
+			if seenClass[c] > 2 || len(replayPaths) >= 6 {
+				continue // several workers found the same class: two witnesses are enough
+			}
+		}
 		rf["tree_hash"] = treeHash
 		p := filepath.Join(verifDir, "replays", fmt.Sprintf("%s-%d-%v.json", prop, seed, rf["run"]))
 		b, _ := json.MarshalIndent(rf, "", " ")
